@@ -5,6 +5,7 @@ import (
 	"fmt"
 	"hash/crc32"
 	"io"
+	"os"
 	"reflect"
 	"time"
 
@@ -90,6 +91,41 @@ func (cs *State) readReplayMessage(msg *TimedWALMessage, newStepSub types.Subscr
 
 // Replay only those messages since the last block.  `timeoutRoutine` should
 // run concurrently to read off tickChan.
+// errEndHeightMissing is returned by catchupReplay when the WAL holds no
+// #ENDHEIGHT marker for the height the state has already reached.
+type errEndHeightMissing struct {
+	height, endHeight int64
+}
+
+func (e errEndHeightMissing) Error() string {
+	return fmt.Sprintf("cannot replay height %d. WAL does not contain #ENDHEIGHT for %d", e.height, e.endHeight)
+}
+
+// walHeadIsTorn reports whether the WAL head file ends in (or contains) a
+// record that cannot be decoded.
+func walHeadIsTorn(path string) (bool, error) {
+	f, err := os.Open(path)
+	if os.IsNotExist(err) {
+		return false, nil
+	} else if err != nil {
+		return false, err
+	}
+	defer f.Close()
+
+	dec := NewWALDecoder(f)
+	for {
+		_, err := dec.Decode()
+		switch {
+		case err == io.EOF:
+			return false, nil
+		case IsDataCorruptionError(err):
+			return true, nil
+		case err != nil:
+			return false, err
+		}
+	}
+}
+
 func (cs *State) catchupReplay(csHeight int64) error {
 
 	// Set replayMode to true so we don't log signing errors.
@@ -132,7 +168,7 @@ func (cs *State) catchupReplay(csHeight int64) error {
 		return err
 	}
 	if !found {
-		return fmt.Errorf("cannot replay height %d. WAL does not contain #ENDHEIGHT for %d", csHeight, endHeight)
+		return errEndHeightMissing{height: csHeight, endHeight: endHeight}
 	}
 	defer gr.Close()
 
